@@ -356,6 +356,10 @@ class Gen(object):
             if self.p(0.6):
                 a["index"] = self.ch([0, 0, 1, 2, 5])
             cur = self.tattr(nm) if self.p(0.75) else None
+            if cur is not None and self.p(0.15):
+                # a current attribute of another kind than the new one (2.0 form)
+                cur = self.tattr(self.ch(["Name", "Object Group", "Application Specific Information", "Sensitive",
+                                          "Contact Information", "State"]))
             it.update(uid=self.uid(), attr=a, current=cur, new=self.tattr(nm))
         elif op == "deleteAttribute":
             nm = self.ch(["Name", "Name", "Object Group", "Application Specific Information", "Sensitive", "State",
